@@ -201,8 +201,9 @@ class MolQueryReader(object):
             # aromatic molecule
             symbol = tree[0][0].upper()+tree[0][1:]
             try:
-                atom = Chem.Atom(symbol)
-                atom.SetIsAromatic(True)
+                atom = rdqueries.AtomNumEqualsQueryAtom(
+                    Chem.Atom(symbol).GetAtomicNum())
+                atom.ExpandQuery(rdqueries.IsAromaticQueryAtom())
             except RuntimeError:
                 msg = 'Element aromatic ' + symbol + ' not found'
                 raise RINGReaderError(msg)
